@@ -775,6 +775,8 @@ class Container:
 
         if not isinstance(source_container, Container):
             raise TypeError("Invalid source type.")
+        if source_container is self:
+            raise ValueError("Source and destination are the same container.")
         quantity_to_transfer, unit = Unit.parse_quantity(quantity)
 
         if unit == 'L':
@@ -2782,6 +2784,13 @@ class PlateSlicer(Slicer):
     def name(self):
         return self.__repr__()
 
+    def _indices(self) -> set:
+        """ @private Flat indices of the wells selected by this slice. """
+        index = numpy.arange(self.plate.wells.size).reshape(self.plate.wells.shape)
+        if isinstance(self.slices, list):
+            return {int(i) for item in self.slices for i in index[item].flatten()}
+        return {int(i) for i in index[self.slices].flatten()}
+
     @property
     def array(self):
         """ @private """
@@ -2821,6 +2830,8 @@ class PlateSlicer(Slicer):
             frm.plate = deepcopy(frm.plate)
         else:
             different = False
+            if frm._indices() & to._indices():
+                raise ValueError("Source and destination slices of the same plate must not overlap.")
             to.plate = frm.plate = deepcopy(to.plate)
 
         if frm.size == 1:
